@@ -175,3 +175,59 @@ Definition tobs_eqb (a b : tobs) : bool :=
 Definition check_template (cs : bool * str * tobs) : bool :=
   let '(d, s, o) := cs in
   match template_obs d s with Some o' => tobs_eqb o o' | None => false end.
+
+(* ---------- 3. TagFormatter.parse: the pre-processing of a component tag's bits (tag_formatter.py) ---------- *)
+(* runs in the tag function of every component tag, on Token.split_contents(), BEFORE parse_tag.  No loop but the one over the
+   bits; the tests are `=` in args[0], kwarg.startswith(name=), is_str_wrapped_in_quotes - plain string primitives. *)
+Definition NAME_EQ : str := [110; 97; 109; 101; 61]%N.                       (* name= *)
+
+(* util/misc.py: s starts with a quote character, s[0] == s[-1] and len(s) >= 2 *)
+Definition wrapped_in_quotes (s : str) : bool :=
+  match s with
+  | q :: _ => (N.eqb q 34 || N.eqb q 39) && match rev s with l :: _ => N.eqb q l | [] => false end && Nat.leb 2 (length s)
+  | [] => false
+  end.
+
+(* the `for kwarg in args` loop: comp_name (empty = None = falsy) and final_args *)
+Fixpoint pick_name (args : list str) (name : str) (acc : list str) : res (str * list str) :=
+  match args with
+  | [] => Ok (name, rev acc)
+  | k :: r =>
+    if starts_with NAME_EQ k then
+      match name with
+      | _ :: _ => Err TemplateSyntaxError                                     (* the name kwarg was defined more than once *)
+      | [] => pick_name r (skipn 5 k) acc
+      end
+    else pick_name r name (k :: acc)
+  end.
+
+(* ComponentFormatter.parse(tokens) *)
+Definition component_formatter_parse (tokens : list str) : res (str * list str) :=
+  match tokens with
+  | [] => Err OtherError                                                      (* `tag, *args = tokens`: ValueError *)
+  | _ :: [] => Err TemplateSyntaxError                                        (* did not receive tag name *)
+  | _ :: a0 :: rest =>
+    let r := if existsb (N.eqb 61) a0 then pick_name (a0 :: rest) [] [] else Ok (a0, rest) in
+    match r with
+    | Ok (name, final) =>
+      match name with
+      | [] => Err TemplateSyntaxError
+      | _ => if wrapped_in_quotes name then Ok (firstn (length name - 2) (skipn 1 name), final) else Err TemplateSyntaxError
+      end
+    | Err k => Err k
+    | OutOfFuel => OutOfFuel
+    end
+  end.
+
+(* ShorthandComponentFormatter.parse(tokens): tokens.pop(0) *)
+Definition shorthand_formatter_parse (tokens : list str) : res (str * list str) :=
+  match tokens with [] => Err IndexError | n :: r => Ok (n, r) end.
+
+Inductive fobs := FOk (name : str) (toks : list str) | FErr (k : errkind).
+Definition check_formatter (cs : bool * list str * fobs) : bool :=
+  let '(shorthand, tokens, o) := cs in
+  match (if shorthand then shorthand_formatter_parse tokens else component_formatter_parse tokens), o with
+  | Ok (n, ts), FOk n' ts' => str_eqb n n' && list_eqb str_eqb ts ts'
+  | Err k, FErr k' => errkind_eqb k k'
+  | _, _ => false
+  end.
